@@ -266,6 +266,19 @@ def _conn(run, P, only=None):
             if not I.sinks and only is None:
                 run.incomplete("F-CONN/standard-form", f"{key}:sinks", where(f), "no connectivity sink found in this reader")
             _emit_sinks(run, I, f, n, only)
+            if key.endswith(":_standardize_connectivity") and only is None:
+                # the standardiser's contract: on EVERY return the variable has been rewritten in standard form.  A path that returns without passing the store keeps
+                # the source's representation - whatever that path established about dtype and fill value, nothing on it touches the index base.
+                c = f"{key}:every-return-stores"
+                bare = [s_ for s_ in getattr(I, "exits", []) if s_.hit == 0]
+                if not bare:
+                    run.holds("F-CONN/standard-form", c, where(f), f"all {len(getattr(I, 'exits', []))} returning paths pass the store of the standardised array")
+                elif any("start_index" in t for s_ in bare for t, _v in s_.conds):
+                    run.incomplete("F-CONN/standard-form", c, where(f), f"a path returns without storing; it is conditioned on start_index ({[t for t, _v in bare[0].conds][:3]}): not decided")
+                else:
+                    conds = [f"{t} is {v}" for t, v in bare[0].conds][:4]
+                    run.violation("F-CONN/standard-form", c, where(f), f"{len(bare)} path(s) return without storing a standardised array (taken when {conds}): the source's index base (start_index, or the inferred "
+                                  "smallest index) is never removed on them, so a one-based file whose dtype and fill value already match comes out one-based")
     except C.Incomplete as e:
         run.incomplete("F-CONN/standard-form", "typestate", "-", str(e))
     if only is not None:
